@@ -290,9 +290,12 @@ class SegmentListType(SerializableArray):
             doc, tag, ns_key=ns_key, parent=parent, check_validity=check_validity, strict=strict)
         if anode is None:
             return None  # an empty list writes nothing
-        create_text_node(
+        num_node = create_text_node(
             doc, 'NumSegments' if ns_key is None else '{}:NumSegments'.format(ns_key),
             '{0:d}'.format(self.NumSegments), parent=anode)
+        # the schema puts NumSegments before the Segment elements
+        anode.remove(num_node)
+        anode.insert(0, num_node)
         return anode
 
 
